@@ -103,7 +103,7 @@ def worker(case):
 class C20(core.Check):
     prop = "C20"
     flavours = ["plain", "asan"]
-    rule = ("decode: every byte string of length 0..3 (exhaustive) and strings of length 8..11 with every value in the last positions over fixed "
+    rule = ("decode: every byte string of length 0..3 (exhaustive; thorough tier: length 4 too, 2^32 strings) and strings of length 8..11 with every value in the last positions over fixed "
             "prefixes, placed flush against a PROT_NONE page at cursors 0/1/7, for compint_to_size and compint_to_int; encode/decode: every v < 2^21, "
             "all 2^k, 2^k+-1, random 64-bit; a PRNG sample of strings cross-checked against Python integers; calls whose cursor is already past the limit (1..4000 bytes, pointer inside the inaccessible page) must fail without a read; ASan pass on exact-size heap buffers. "
             "evaluations = decoder/encoder calls; distinct_nontrivial counts shards that executed calls (2 per shard), not calls")
@@ -115,7 +115,7 @@ class C20(core.Check):
 
     def cases(self, ctx):
         out = []
-        modes = ["short", "enc", "longq", "sample", "beyond"] if self.quick else ["short", "enc", "long", "sample", "beyond"]
+        modes = ["short", "enc", "longq", "sample", "beyond"] if self.quick else ["short", "enc", "long", "sample", "beyond", "short4"]
         for m in modes:
             for sh in range(NSH):
                 out.append({"bin": ctx["plain"], "mode": m, "shard": sh, "asan": False, "seed": self.seed,
